@@ -15,6 +15,7 @@ import (
 	"net/http"
 	"net/http/httptest"
 	"net/netip"
+	"sort"
 	"strings"
 	"testing"
 
@@ -161,6 +162,10 @@ type vfC02Conf struct {
 	// QueryAllowed: an allow rule covers the queried name itself.
 	QueryAllowed string
 	WithLog      bool
+	// CacheOn enables the proxy's DNS cache; Repeats is how often the same
+	// query is sent (cache hits must be filtered like fresh answers).
+	CacheOn bool
+	Repeats int
 	// Planted describes the planted offending record, for the evidence.
 	Planted string
 }
@@ -195,6 +200,13 @@ func vfDrawC02Conf(t *rapid.T) (c *vfC02Conf) {
 	c.AAAAOff = rapid.IntRange(0, 3).Draw(t, "aaaa_disabled") == 0
 	c.ClientOff = rapid.IntRange(0, 9).Draw(t, "client_filtering_off") == 0
 	c.WithLog = rapid.IntRange(0, 3).Draw(t, "with_querylog") == 0
+	c.CacheOn = rapid.Bool().Draw(t, "dns_cache")
+	c.Repeats = 1
+	if c.CacheOn {
+		c.Repeats = rapid.IntRange(2, 3).Draw(t, "repeats")
+		// the log assertion counts entries of a single query
+		c.WithLog = false
+	}
 
 	vals := vfC02FilterableValues(c.Answer)
 	place := func(rule string, label string) {
@@ -354,6 +366,9 @@ func vfC02World(c *vfC02Conf, reg func(method, url string, h http.HandlerFunc)) 
 		BlockLists: []vfListConf{{Rules: append([]string{"! block"}, c.Block...), Enabled: true}},
 		AllowLists: []vfListConf{{Rules: append([]string{"! allow"}, c.Allow...), Enabled: true}},
 	}
+	if c.CacheOn {
+		wc.CacheSize = 1 << 20
+	}
 	if c.ClientOff {
 		wc.Clients = []*client.Persistent{{
 			Name: "nofilter", UID: client.MustNewUID(), IPs: []netip.Addr{netip.MustParseAddr("198.18.0.77")},
@@ -418,96 +433,133 @@ func TestVFC02Response(t *testing.T) {
 		q := &vfC01Query{vfQuery: vfQuery{
 			Name: c.Qname, Qtype: c.Qtype, Addr: netip.MustParseAddrPort("198.18.0.77:5353"), Proto: proxy.ProtoUDP,
 		}}
-		o := w.run(q.vfQuery)
-
-		vfC02.Eval()
-		vfC02.Class("expect:" + why)
-		vfC02.Class("mode:" + string(c.Mode))
-		vfC02.Class("qtype:" + dns.Type(c.Qtype).String())
-		nFilterable := len(vfC02FilterableValues(c.Answer))
-		touched := c.Planted != ""
-		if nFilterable > 0 && touched {
-			first := -1
-			for i, r := range c.Answer {
-				if len(r.Values) > 0 && first < 0 {
-					first = i
-				}
-			}
-			kinds := ""
-			for _, r := range c.Answer {
-				kinds += r.Kind[:1]
-			}
-			vfC02.Nontrivial(fmt.Sprintf("%s|%s|%s|%s|aaaaoff=%t|%s", why, kinds, dns.Type(c.Qtype), c.Mode, c.AAAAOff, c.Planted))
-			vfC02.Class("nontrivial")
+		var o *vfOutcome
+		for rep := 0; rep < c.Repeats; rep++ {
+			o = w.run(q.vfQuery)
+			vfC02CheckOne(t, c, q, o, blocked, why, upstreamRRs, rep)
 		}
-		if vfC02.WantSample(why) {
-			s := c.describe()
-			s["expected"] = why
-			if o.Res != nil {
-				s["reply_rcode"] = dns.RcodeToString[o.Res.Rcode]
-				s["reply_answer"] = vfRRStrings(o.Res.Answer)
-			}
-			vfC02.Sample(why, s)
+		if c.CacheOn {
+			vfC02.Class("cache_on")
 		}
 
-		fail := func(format string, args ...any) {
-			t.Fatalf("%s\nexpected: %s (blocked=%t)\ncase: %v\nreply: %v", fmt.Sprintf(format, args...), why, blocked, c.describe(), o.Res)
-		}
-
-		if o.Err != nil || o.BeforeErr != nil || o.Res == nil {
-			fail("request failed: before=%v err=%v", o.BeforeErr, o.Err)
-		}
-
-		cc := &vfC01Conf{Mode: c.Mode, V4: c.V4, V6: c.V6, TTL: c.TTL}
-		switch {
-		case why == "aaaa_disabled_local":
-			if len(o.Asked) != 0 || len(o.Res.Answer) != 0 || o.Res.Rcode != dns.RcodeSuccess {
-				fail("AAAA disabled: expected local empty NOERROR, upstream asked %v", o.Asked)
-			}
-
-			return
-		case why == "query_itself_blocked":
-			if cerr := vfCheckBlocked(cc, q, vfVerdict{Blocked: true, Why: "network"}, o); cerr != nil {
-				fail("%v", cerr)
-			}
-
-			return
-		case blocked:
-			// upstream was asked (once), but nothing of its answer is delivered
-			if len(o.Asked) != 1 {
-				fail("expected one upstream question, saw %v", o.Asked)
-			}
-			o2 := *o
-			o2.Asked = nil
-			if cerr := vfCheckBlockedResponse(cc, q, &o2, upstreamRRs); cerr != nil {
-				fail("%v", cerr)
-			}
-		default:
-			if len(o.Asked) != 1 {
-				fail("expected one upstream question, saw %v", o.Asked)
-			}
-			want := upstreamRRs
-			if c.AAAAOff && c.Protection && c.FilteringOn && !c.ClientOff && why == "clean" {
-				want = vfStripV6Hints(want)
-			}
-			got := vfRRStrings(o.Res.Answer)
-			exp := vfRRStrings(want)
-			if strings.Join(got, "\n") != strings.Join(exp, "\n") {
-				// with AAAA disabled the statement allows the removal of
-				// ipv6hint also on the gated paths
-				if !(c.AAAAOff && strings.Join(got, "\n") == strings.Join(vfRRStrings(vfStripV6Hints(upstreamRRs)), "\n")) {
-					fail("answer not delivered unchanged: got %q want %q", got, exp)
-				}
-			}
-			if o.Res.Rcode != dns.RcodeSuccess || len(o.Res.Question) != 1 || o.Res.Question[0] != o.Req.Question[0] {
-				fail("rcode/question changed")
-			}
-		}
-
-		if c.WithLog {
+		if c.WithLog && why != "aaaa_disabled_local" && why != "query_itself_blocked" {
 			vfC02CheckLog(t, c, handlers, blocked, o, upstreamRRs)
 		}
 	})
+}
+
+// vfC02CheckOne judges one response of a case; rep > 0 are repetitions that the
+// DNS cache may answer.
+func vfC02CheckOne(t *rapid.T, c *vfC02Conf, q *vfC01Query, o *vfOutcome, blocked bool, why string, upstreamRRs []dns.RR, rep int) {
+	wantAsked := 1
+	if rep > 0 {
+		// a repetition may be served from the cache
+		wantAsked = len(o.Asked)
+		if wantAsked > 1 {
+			t.Fatalf("upstream asked %d times for one query", wantAsked)
+		}
+	}
+	_ = wantAsked
+
+	vfC02.Eval()
+	vfC02.Class("expect:" + why)
+	vfC02.Class("mode:" + string(c.Mode))
+	vfC02.Class("qtype:" + dns.Type(c.Qtype).String())
+	nFilterable := len(vfC02FilterableValues(c.Answer))
+	touched := c.Planted != ""
+	if nFilterable > 0 && touched {
+		first := -1
+		for i, r := range c.Answer {
+			if len(r.Values) > 0 && first < 0 {
+				first = i
+			}
+		}
+		kinds := ""
+		for _, r := range c.Answer {
+			kinds += r.Kind[:1]
+		}
+		vfC02.Nontrivial(fmt.Sprintf("%s|%s|%s|%s|aaaaoff=%t|%s", why, kinds, dns.Type(c.Qtype), c.Mode, c.AAAAOff, c.Planted))
+		vfC02.Class("nontrivial")
+	}
+	if vfC02.WantSample(why) {
+		s := c.describe()
+		s["expected"] = why
+		if o.Res != nil {
+			s["reply_rcode"] = dns.RcodeToString[o.Res.Rcode]
+			s["reply_answer"] = vfRRStrings(o.Res.Answer)
+		}
+		vfC02.Sample(why, s)
+	}
+
+	fail := func(format string, args ...any) {
+		t.Fatalf("%s\nexpected: %s (blocked=%t)\ncase: %v\nreply: %v", fmt.Sprintf(format, args...), why, blocked, c.describe(), o.Res)
+	}
+
+	if o.Err != nil || o.BeforeErr != nil || o.Res == nil {
+		fail("request failed: before=%v err=%v", o.BeforeErr, o.Err)
+	}
+
+	cc := &vfC01Conf{Mode: c.Mode, V4: c.V4, V6: c.V6, TTL: c.TTL}
+	switch {
+	case why == "aaaa_disabled_local":
+		if len(o.Asked) != 0 || len(o.Res.Answer) != 0 || o.Res.Rcode != dns.RcodeSuccess {
+			fail("AAAA disabled: expected local empty NOERROR, upstream asked %v", o.Asked)
+		}
+
+		return
+	case why == "query_itself_blocked":
+		if cerr := vfCheckBlocked(cc, q, vfVerdict{Blocked: true, Why: "network"}, o); cerr != nil {
+			fail("%v", cerr)
+		}
+
+		return
+	case blocked:
+		// upstream was asked (once), but nothing of its answer is delivered
+		if len(o.Asked) != wantAsked {
+			fail("expected %d upstream question(s), saw %v", wantAsked, o.Asked)
+		}
+		o2 := *o
+		o2.Asked = nil
+		if cerr := vfCheckBlockedResponse(cc, q, &o2, upstreamRRs); cerr != nil {
+			fail("%v", cerr)
+		}
+	default:
+		if len(o.Asked) != wantAsked {
+			fail("expected %d upstream question(s), saw %v", wantAsked, o.Asked)
+		}
+		want := upstreamRRs
+		if c.AAAAOff && c.Protection && c.FilteringOn && !c.ClientOff && why == "clean" {
+			want = vfStripV6Hints(want)
+		}
+		got := vfWireStrings(o.Res.Answer)
+		exp := vfWireStrings(want)
+		if strings.Join(got, "\n") != strings.Join(exp, "\n") {
+			// with AAAA disabled the statement allows the removal of
+			// ipv6hint also on the gated paths
+			if !(c.AAAAOff && strings.Join(got, "\n") == strings.Join(vfWireStrings(vfStripV6Hints(upstreamRRs)), "\n")) {
+				fail("answer not delivered unchanged: got %q want %q", got, exp)
+			}
+		}
+		if o.Res.Rcode != dns.RcodeSuccess || len(o.Res.Question) != 1 || o.Res.Question[0] != o.Req.Question[0] {
+			fail("rcode/question changed")
+		}
+	}
+
+}
+
+// vfWireStrings renders rrs with the SVCB parameters of HTTPS records ordered
+// by key, which is the order of the wire form (RFC 9460 2.2) and what comes
+// back from the DNS cache.
+func vfWireStrings(rrs []dns.RR) (ss []string) {
+	for _, rr := range rrs {
+		rr = dns.Copy(rr)
+		if h, ok := rr.(*dns.HTTPS); ok {
+			sort.SliceStable(h.Value, func(i, j int) bool { return h.Value[i].Key() < h.Value[j].Key() })
+		}
+		ss = append(ss, rr.String())
+	}
+
+	return ss
 }
 
 // vfCheckBlockedResponse is vfCheckBlocked plus: no record of the upstream
@@ -518,11 +570,11 @@ func vfCheckBlockedResponse(cc *vfC01Conf, q *vfC01Query, o *vfOutcome, upstream
 		return err
 	}
 	up := map[string]bool{}
-	for _, rr := range upstreamRRs {
-		up[rr.String()] = true
+	for _, rs := range vfWireStrings(upstreamRRs) {
+		up[rs] = true
 	}
 	for _, rr := range o.Res.Answer {
-		if up[rr.String()] {
+		if up[vfWireStrings([]dns.RR{rr})[0]] {
 			return fmt.Errorf("upstream record delivered in a blocked reply: %s", rr)
 		}
 	}
